@@ -53,7 +53,7 @@ func sessionFuncs(c *core.Ctx) []*ssa.Function {
 		for root.Parent() != nil {
 			root = root.Parent()
 		}
-		if recvTypeName(root) == "mergeHandlerSession" || root.Name() == "newMergeHandlerSession" {
+		if recvTypeName(root) == "mergeHandlerSession" || an.ShortName(root) == "newMergeHandlerSession" {
 			out = append(out, fn)
 		}
 	}
@@ -108,8 +108,9 @@ func runTok(c *core.Ctx) {
 	c.Check(okFill, nil, fname(c, ctor), "fills", P.Pos(ctor.Pos()), "3 state channels of capacity 1, each filled with exactly one token: "+strings.Join(fs, " "), "state channels are not 1-slot tokens filled exactly once: "+strings.Join(fs, " ")+" — two goroutines can hold the same state, or everyone blocks forever")
 	// (c)+(d) per holder function
 	for _, fn := range sessionFuncs(c) {
-		var acq *ssa.UnOp
+		var acq ssa.Instruction
 		acqs := map[ssa.Value]bool{}
+		borrowers := map[*ssa.Function]bool{}
 		an.Instrs(fn, func(in ssa.Instruction) {
 			if u, ok := in.(*ssa.UnOp); ok && u.Op == token.ARROW {
 				if ch, ok := u.X.Type().Underlying().(*types.Chan); ok && isMergeState(ch.Elem()) {
@@ -117,6 +118,22 @@ func runTok(c *core.Ctx) {
 						acq = u
 					}
 					acqs[u] = true
+				}
+			}
+			// the token taken through a borrow helper: s, release := borrow(ss.okStat)
+			if call, ok := in.(*ssa.Call); ok {
+				if chv, ok := borrowCall(call); ok {
+					if ch, ok := chv.Type().Underlying().(*types.Chan); ok && isMergeState(ch.Elem()) {
+						if acq == nil {
+							acq = call
+						}
+						borrowers[an.StaticCallee(&call.Call)] = true
+						for _, r := range *call.Referrers() {
+							if ex, ok := r.(*ssa.Extract); ok && ex.Index == 0 {
+								acqs[ex] = true
+							}
+						}
+					}
 				}
 			}
 		})
@@ -146,7 +163,7 @@ func runTok(c *core.Ctx) {
 		var callees []*ssa.Function
 		for _, ci := range calls(fn) {
 			if sc := an.StaticCallee(ci.Common()); sc != nil && P.InModule(sc) {
-				if _, isDefer := ci.(*ssa.Defer); !isDefer {
+				if _, isDefer := ci.(*ssa.Defer); !isDefer && !borrowers[sc] {
 					callees = append(callees, sc)
 				}
 			}
@@ -159,7 +176,7 @@ func runTok(c *core.Ctx) {
 			}
 		}
 		for _, op := range an.ChanOps(fn) {
-			if op.Instr == ssa.Instruction(acq) {
+			if op.Instr == acq {
 				continue
 			}
 			if op.Kind == an.OpSend || op.Kind == an.OpRecv || (op.Kind == an.OpSelect && op.Select.Blocking) {
@@ -427,6 +444,35 @@ func runMergeGuards(c *core.Ctx) {
 			if !skipOK {
 				good = false
 				detail += "; a forwarding path skips the comparison although a last event exists"
+			}
+		}
+		if cmpCall == nil {
+			// compared directly (`last.CreatedAt < new.CreatedAt`): forwarded iff last − new ≥ 0
+			last := "recv.lastEvent[" + sub + "].Event.CreatedAt"
+			fr := an.SymFrame(last, msg+".Event.CreatedAt")
+			fwdSet := an.Empty()
+			skipOK, compared := true, false
+			for _, p := range fwd {
+				if p.Has(func(g an.Cond) bool {
+					is, nn := nilTestPath(g, "recv.lastEvent["+sub+"]")
+					return is && g.True != nn
+				}) {
+					continue // no last event: nothing to compare with
+				}
+				m := p.Meaning(fr)
+				if m.Equal(an.Full()) {
+					skipOK = false
+				} else {
+					compared = true
+				}
+				fwdSet = fwdSet.Union(m)
+			}
+			if compared {
+				good = skipOK && fwdSet.Equal(an.Range(0, an.PosInf))
+				detail = "forwarded iff last.created_at − new.created_at ∈ " + fwdSet.String()
+				if !skipOK {
+					detail += "; a forwarding path skips the comparison although a last event exists"
+				}
 			}
 		}
 		c.Check(good, nil, fname(c, fn), "order-guard", P.Pos(fn.Pos()), "an event newer than the last forwarded one is refused ("+detail+"): the stream is non-increasing in created_at", "the order guard does not refuse exactly the events newer than the last forwarded one: "+detail)
